@@ -176,8 +176,8 @@ const (
 
 // bound is the virtual time within which the retransmission schedule recovers F faults:
 // sum_{k=0}^{F+1} min(I*2^k, 60s). Deliberately loose (see DESIGN C02).
-func bound(f int, base time.Duration) time.Duration {
-	sum := time.Duration(f) * 2500 * time.Millisecond // a held datagram is delayed by at most MaxHold
+func bound(f int, base time.Duration, holds int) time.Duration {
+	sum := time.Duration(holds) * 2500 * time.Millisecond // a held datagram is delayed by at most MaxHold
 	iv := base
 	for k := 0; k <= f+1; k++ {
 		sum += iv
@@ -290,6 +290,9 @@ func attempt(c Case) outcome {
 	cEP.IntervalMs, sEP.IntervalMs = c.IvlC, c.IvlS
 	cEP.NoBackoff, sEP.NoBackoff = c.NoBO, c.NoBO
 	base := interval
+	if c.IvlC > 0 && c.IvlS > 0 {
+		base = 0 // both endpoints run on configured intervals: the schedule is theirs, however short
+	}
 	for _, ms := range []int{c.IvlC, c.IvlS} {
 		if d := time.Duration(ms) * time.Millisecond; ms > 0 && d > base {
 			base = d
@@ -362,7 +365,13 @@ func attempt(c Case) outcome {
 			msg: fmt.Sprintf("handshake did not complete within %v virtual (%d effective faults): C=%v S=%v\n%s", hsTimeout, eff, p.C.Err(), p.S.Err(), tail(p.Dump(), 40))}
 	}
 	done := max(p.C.HSAt, p.S.HSAt)
-	if b := bound(eff, base); done > b {
+	holds := 0
+	for _, tg := range plan {
+		if tg.Kind == vnet.Hold || tg.Kind == vnet.Swap {
+			holds++
+		}
+	}
+	if b := bound(eff, base, holds); done > b {
 		return outcome{status: "slow", who: "both", sig: faultSig(plan), eff: eff, plan: plan,
 			msg: fmt.Sprintf("completed at %v, bound for %d faults is %v\n%s", done, eff, b, tail(p.Dump(), 40))}
 	}
